@@ -203,6 +203,12 @@ func init() {
 					}
 				}
 			}
+			// anchors and aliases: a list item that is an alias of an earlier entry, a list that is an alias of another list
+			for _, k := range Formats {
+				if !yield(C13Case{Part: "alias", Key: k}) {
+					return
+				}
+			}
 			// a document of more than a megabyte (thorough: five) whose override blocks come last
 			for _, k := range Formats {
 				if !yield(C13Case{Part: "large", Key: k}) {
@@ -541,6 +547,46 @@ func checkC13(env *engine.Env, ci any) engine.Outcome {
 			keyParts = append(keyParts, f+"="+fmt.Sprint(hashString(got)))
 		}
 		out.Key = fmt.Sprintf("%s:%s:%v:%v:%v:%v:%v:%v:%s:%s:%s", c.Key, c.Key2, c.All, c.BaseUnset, c.Null, c.Bystanders, c.Leaves, c.Empty, c.First, c.Second, strings.Join(keyParts, ","))
+	case "alias":
+		t := tree(env)
+		text := "name: pkg\narch: amd64\nversion: 1.2.3\nmaintainer: M <m@example.com>\n" +
+			"depends: &deps\n- liba\n- libb (>= 2)\n" +
+			"recommends: *deps\n" +
+			"contents:\n- &conf\n  src: " + t.P("etc/app.conf") + "\n  dst: /etc/app.conf\n  type: config\n- &bin {src: " + t.P("bin/app") + ", dst: /usr/bin/app}\n" +
+			"overrides:\n"
+		for _, f := range Formats {
+			text += "  " + f + ":\n    contents:\n    - *conf\n    - *bin\n    - src: " + t.P("etc/app.conf") + "\n      dst: /etc/only-" + f + ".conf\n    suggests: *deps\n"
+		}
+		cfg, err := parseYAML(text, nil)
+		out.Transitions++
+		out.Nontrivial = true
+		out.Key = fmt.Sprintf("alias:%s:%v", c.Key, err != nil)
+		if err != nil {
+			viol("merge:alias-document-rejected", "a valid document that uses anchors and aliases is not parsed: %v\n%s", err, text)
+			return out
+		}
+		info, gerr := safeGet(&cfg, c.Key)
+		if gerr != nil {
+			viol("merge:get-error:"+c.Key, "Get(%s) failed: %v", c.Key, gerr)
+			return out
+		}
+		var dsts []string
+		for _, e := range info.Contents {
+			if e != nil {
+				dsts = append(dsts, e.Destination+"|"+e.Type)
+			}
+		}
+		wantD := fmt.Sprintf("[/etc/app.conf|config /usr/bin/app| /etc/only-%s.conf|]", c.Key)
+		if fmt.Sprint(dsts) != wantD {
+			viol("merge:alias:contents:"+c.Key, "override contents written as aliases of the base entries plus one entry: Get(%s) gives %v, want %s\n%s", c.Key, dsts, wantD, text)
+		}
+		if len(cfg.Contents) != 2 {
+			viol("merge:alias:base-contents", "the base contents (two anchored entries) are read as %d entries", len(cfg.Contents))
+		}
+		wantL := "[liba libb (>= 2)]"
+		if fmt.Sprint(info.Depends) != wantL || fmt.Sprint(info.Recommends) != wantL || fmt.Sprint(info.Suggests) != wantL {
+			viol("merge:alias:lists:"+c.Key, "depends (anchored), recommends and overrides.%s.suggests (aliases of it): Get gives %v %v %v, want %s each", c.Key, info.Depends, info.Recommends, info.Suggests, wantL)
+		}
 	case "large":
 		var b strings.Builder
 		b.WriteString("name: pkg\narch: amd64\nversion: 1.2.3\nmaintainer: M <m@example.com>\ndepends:\n- base-dep\numask: 0o002\ncontents:\n")
